@@ -592,7 +592,10 @@ func (c *Ctx) ctorArg(a ssa.Value, p *Path, window ssa.Value, wrapper *ssa.Funct
 	v := c.resolve(a, p.Env)
 	arg := CtorArg{Pos: -1, Val: v}
 	if call, ok := v.(*ssa.Call); ok && wrapper != nil && call.Call.StaticCallee() == wrapper {
-		arg.Wrapped = true
+		// wrapped only if the helper receives the reducer's own default-field parameter unchanged
+		if len(call.Call.Args) == 2 && c.resolve(call.Call.Args[1], p.Env) == ssa.Value(p.Fn.Params[len(p.Fn.Params)-1]) {
+			arg.Wrapped = true
+		}
 		v = c.resolve(call.Call.Args[0], p.Env)
 	}
 	if i, fe, asserted, ok := c.elemRef(v, p.Env, window); ok {
